@@ -482,6 +482,23 @@ pub struct Case {
 
 pub fn cases(opts: &Opts) -> Vec<Case> {
     let mut out: Vec<Case> = ops::corpus().into_iter().map(|c| Case { name: c.name, files: c.files, proj: None }).collect();
+    // many import paths to the same packages: L layers of two packages, each importing both
+    // packages of the next layer (2^L paths; package ordering has to stay linear)
+    for layers in [12usize, 36] {
+        let mut files = Files::new();
+        files.insert("main.gom".to_string(), b"package Main\nimport La0\nimport Lb0\n\nfn main() -> unit {\n    string_println(int32_to_string(La0::f() + Lb0::f()))\n}\n".to_vec());
+        for k in 0..layers {
+            for side in ["La", "Lb"] {
+                let body = if k + 1 < layers {
+                    format!("package {side}{k}\nimport La{n}\nimport Lb{n}\n\nfn f() -> int32 {{\n    if 0 < 1 {{ 1 }} else {{ La{n}::f() + Lb{n}::f() }}\n}}\n", n = k + 1)
+                } else {
+                    format!("package {side}{k}\n\nfn f() -> int32 {{\n    1\n}}\n")
+                };
+                files.insert(format!("{side}{k}/lib.gom"), body.into_bytes());
+            }
+        }
+        out.push(Case { name: format!("layered/{layers}"), files, proj: None });
+    }
     let n = opts.n(500, 600);
     for i in 0..n {
         let mut p = Prng::derive(opts.seed, i as u64, "c04-project");
@@ -531,6 +548,10 @@ pub fn prepare(sb: &Sandbox, case: &Case) -> (Files, Vec<OpSpec>, Vec<String>, V
             }
         }
         for name in &order {
+            if case.name.starts_with("layered/") {
+                // (dozens of packages: the whole-program run and the link are what matters here)
+                break;
+            }
             let pk = &layout.pkgs[name];
             for cmd in ["check", "build"] {
                 let mut a = vec![s("goml"), s(cmd), s("--package"), name.clone(), s("--input")];
